@@ -1,4 +1,5 @@
 import BtcwVerif.Lemmas.AddrIdxRun
+import BtcwVerif.Lemmas.AddrDeriveCache
 /-!
 # C03 — every issued address is the seed's BIP32 child and the wallet can sign for it
 
@@ -367,5 +368,89 @@ example : (match (step {} demoHD03 (run {} demoHD03
     of account 0 of scope 84:0 has issued 0,1,2,3,4 and the stored next index is 5 -/
 example : idxOf (runLog demoHD03 [.create [0], .next (84, 0) 0 2 false 1, .unlock 0, .extend (84, 0) 0 2 false, .restart,
       .next (84, 0) 0 2 false 5, .next (84, 0) 0 1 true 9]).2 (84, 0) 0 0 = [0, 1, 2, 3, 4] := by decide
+
+-- ---------------------------------------------------------------------------------------------------------
+-- round 2: `DeriveFromKeyPathCache` (the fast path behind `Wallet.DeriveFromKeyPath`) and `RenameAccount`
+
+/-- **The key `DeriveFromKeyPathCache` returns is the seed's child.**  After any history, whatever key the fast path
+    returns for scope / `InternalAccount = a` / branch `b` / index `i` is child `b/i` of the private key stored in the
+    row of account `a` of that scope — by `RowKeyOK` the seed's `m/purpose'/coin'/a'` — and (non-hardened `b`, `i`) its
+    public key is the public child `b/i` of that account's key, i.e. the public key of the address at that path
+    (`C03_issued_is_child`).  The `Account` field of the derivation path is no argument of the lookup at all. -/
+theorem C03_derive_cache (hd : HD K P) (hlaw : hd.Lawful) (hn : hd.NoHardPub) (ops : List (Op K P)) (sc : Scope) (a b i : Nat)
+    (k : Priv K) (hk : (opDeriveCache hd (run Cfg.fixed hd ops).1 sc a b i).2.1 = .key k) :
+    ∃ row ak k', acctRow (run Cfg.fixed hd ops).1 sc a = some row ∧ rowPriv row = some ak ∧
+      RowKeyOK hd (run Cfg.fixed hd ops).1 sc a row ∧ derive2 hd ak b i = some k' ∧ k = .hd k' ∧
+      (b < H → i < H → derive2pub hd (rowPub row) b i = some (hd.neuter k')) := by
+  obtain ⟨row, ak, k', h1, h2, h3, h4, h5⟩ := opDeriveCache_child (reach_inv hd hlaw hn ops) hk
+  refine ⟨row, ak, k', h1, h2, h3, h4, h5, fun hb hi => ?_⟩
+  have hneu : hd.neuter ak = rowPub row := by
+    cases row with
+    | dflt pub priv ne ni name =>
+      obtain ⟨root, ak0, _, _, hp, hq⟩ := h3
+      simp only [rowPriv] at h2
+      rw [hq ak h2]; exact hp
+    | wo pub fp ne ni name schema ci => simp [rowPriv] at h2
+  have := derive2_neuter hd hlaw ak b i hb hi
+  rw [h4, hneu] at this
+  exact this.symm
+
+/-- **Paths that differ only in the informational `Account` field get the same answer** (state, result and writes);
+    the account whose key is used is `InternalAccount`. -/
+theorem C03_derive_cache_account_field (cfg : Cfg) (hd : HD K P) (s : State K P) (sc : Scope) (a ac ac' b i : Nat) :
+    step cfg hd s (.deriveCache sc a ac b i) = step cfg hd s (.deriveCache sc a ac' b i) := rfl
+
+/-- **The fast path and the slow path agree.**  After any history, if `DeriveFromKeyPathCache` returns a key for a
+    path, then `DeriveFromKeyPath` for the same `InternalAccount/branch/index` (whatever the `Account` field) builds
+    the address object of that path and its `PrivKey()` returns the very same key. -/
+theorem C03_derive_cache_agrees (hd : HD K P) (hlaw : hd.Lawful) (hn : hd.NoHardPub) (ops : List (Op K P)) (sc : Scope)
+    (a b i : Nat) (k : Priv K) (hk : (opDeriveCache hd (run Cfg.fixed hd ops).1 sc a b i).2.1 = .key k) (ac hh : Nat) :
+    ∃ o, objOfHandle (opDerive hd (run Cfg.fixed hd ops).1 sc a ac b i hh).1 hh = some (.key o) ∧
+      (opDerive hd (run Cfg.fixed hd ops).1 sc a ac b i hh).2.1 = .addr (infoOfKey o) ∧
+      privKeyOf (opDerive hd (run Cfg.fixed hd ops).1 sc a ac b i hh).1 o = .ok k ∧
+      o.scope = sc ∧ o.acct = a ∧ o.branch = b ∧ o.index = i ∧ o.imported = false :=
+  opDeriveCache_agrees (reach_inv hd hlaw hn ops) hk ac hh
+
+/-- **`RenameAccount` changes the name and nothing else.**  From any state, after a rename (successful or refused)
+    every account row is the row it was up to its name: same public and private key, same next indices and — for an
+    imported account — the same overriding address schema. -/
+theorem C03_rename_keeps_row (s : State K P) (sc : Scope) (acct name : Nat) (sc' : Scope) (a : Nat) :
+    (acctRow (opRename s sc acct name).1 sc' a).map (fun r => (rowKey r, rowSchema r, rowNext r false, rowNext r true)) =
+      (acctRow s sc' a).map (fun r => (rowKey r, rowSchema r, rowNext r false, rowNext r true)) := by
+  obtain ⟨g, hg⟩ := opRename_rowSetName s sc acct name sc' a
+  rw [hg]
+  cases acctRow s sc' a with
+  | none => rfl
+  | some r => simp
+
+/-- **A renamed account read back from the database issues in the same format.**  Rename, close, reopen: every account
+    loads (`loadAccountInfo`) exactly when it would have loaded without the rename, with the same keys, the same next
+    indices and the same overriding address schema — so `accountAddrType`, the format of every address of either
+    branch issued, extended or looked up afterwards, is the same. -/
+theorem C03_rename_reload_same_format (hd : HD K P) (s : State K P) (sc : Scope) (acct name : Nat) (sc' : Scope) (a : Nat)
+    {st : State K P} {ai : AcctInfo K P}
+    (hl : loadAcct hd (opRestart (opRename s sc acct name).1).1 sc' a = .ok (st, ai)) :
+    ∃ st0 ai0, loadAcct hd (opRestart s).1 sc' a = .ok (st0, ai0) ∧ ai.keyPub = ai0.keyPub ∧ ai.keyEnc = ai0.keyEnc ∧
+      ai.nextExt = ai0.nextExt ∧ ai.nextInt = ai0.nextInt ∧ ai.schema = ai0.schema ∧
+      ∀ scSchema internal, accountAddrType scSchema ai internal = accountAddrType scSchema ai0 internal := by
+  obtain ⟨g, hg⟩ := opRename_rowSetName s sc acct name sc' a
+  obtain ⟨st0, ai0, h0, h1, h2, h3, _, h5, h6, _, _⟩ :=
+    loadAcct_fresh_setName hd s (opRename s sc acct name).1 sc' a g (opRename_schema s sc acct name sc') hg hl
+  exact ⟨st0, ai0, h0, h2, h3, h5, h6, h1, fun _ _ => by simp [accountAddrType, h1]⟩
+
+/-- non-vacuity of `C03_derive_cache`: two cached accounts of one scope, the same branch/index, the same (constant)
+    `Account` field: each look-up returns the child of ITS account's key -/
+example : (match (step {} demoHD03 (run {} demoHD03 [.create [0], .unlock 0, .newAccount (84, 0) 2, .props (84, 0) 0,
+      .props (84, 0) 1, .deriveCache (84, 0) 0 0 0 0]).1 (.deriveCache (84, 0) 1 0 0 0)).2.1 with
+      | .key (.hd k) => k == [0, 84 + H, 0 + H, 1 + H, 0, 0] | _ => false) = true := by decide
+example : (match (step {} demoHD03 (run {} demoHD03 [.create [0], .unlock 0, .newAccount (84, 0) 2, .props (84, 0) 0,
+      .props (84, 0) 1, .deriveCache (84, 0) 1 0 0 0]).1 (.deriveCache (84, 0) 0 0 0 0)).2.1 with
+      | .key (.hd k) => k == [0, 84 + H, 0 + H, 0 + H, 0, 0] | _ => false) = true := by decide
+
+/-- a traditional BIP49 account (nested P2WPKH on both branches) imported into the BIP0049Plus scope, renamed, read
+    back after a restart: the next internal address is still nested P2WPKH (type code 3), index 1 -/
+example : (match (step {} demoHD03 (run {} demoHD03 [.create [0], .newAccountWO (49, 0) 2 [7] (1 + H) 7 (some ⟨.np2wkh, .np2wkh⟩),
+      .next (49, 0) 1 1 true 1, .rename (49, 0) 1 3, .restart]).1 (.next (49, 0) 1 1 true 2)).2.1 with
+      | .addrs [i] => i.typ == 3 && i.index == 1 && i.internal | _ => false) = true := by decide
 
 end AddrDerive
